@@ -4,10 +4,12 @@
 (* outermost-first around a base expression with the converter functions bb: Bool -> Bool and   *)
 (* ba: Bool -> Array(Bool) (a quantifier can only enclose an array-typed expression, so q is    *)
 (* realisable exactly in boolean position); every limit d in 0..MaxD.                           *)
+(* With side = "right" every parenthesis holds a chain `x and ( ... )` whose right operand carries *)
+(* the remaining constructs (the deepest path lies in the right operand of a chain).              *)
 (* In-model: the L2 counter accepts iff Nesting(ast) <= d, and Nesting = length of the shape.   *)
 EXTENDS WfParser, WfEval, WfJson, Json
 CONSTANTS MaxLen, MaxD
-VARIABLES shape, d
+VARIABLES shape, d, side      \* side = "right": every parenthesis holds a chain whose right operand carries the rest
 AB == TArr(TBool)
 Fn(n, s, pt, rt) == [name |-> n, sem |-> s, params |-> <<[kind |-> "Field", ty |-> pt]>>, opts |-> <<>>, ret |-> rt]
 Sch == [fields |-> <<[name |-> "b1", ty |-> TBool, opt |-> TRUE], [name |-> "vb", ty |-> AB, opt |-> TRUE]>>,
@@ -25,7 +27,11 @@ RECURSIVE Build(_, _, _)
 Build(s, i, vec) ==
   IF i > Len(s) THEN IF vec THEN <<Id("vb")>> ELSE <<Id("b1")>>
   ELSE LET c == s[i] IN
-       IF c = "p" THEN LET x == Build(s, i + 1, vec) IN IF x = <<>> THEN <<>> ELSE <<LP>> \o x \o <<RP>>
+       IF c = "p" THEN LET x == Build(s, i + 1, vec) IN
+                       IF x = <<>> THEN <<>>
+                       ELSE IF side = "right"
+                            THEN <<LP, IF vec THEN Id("vb") ELSE Id("b1"), [k |-> "lop", v |-> (IF i % 2 = 0 THEN "and" ELSE "or"), a |-> 0]>> \o x \o <<RP>>
+                            ELSE <<LP>> \o x \o <<RP>>
        ELSE IF c = "n" THEN LET x == Build(s, i + 1, vec) IN IF x = <<>> THEN <<>> ELSE <<[k |-> "not", a |-> i % 2]>> \o x
        ELSE IF c = "q" THEN IF vec THEN <<>>
                             ELSE LET x == Build(s, i + 1, TRUE) IN
@@ -36,9 +42,12 @@ Build(s, i, vec) ==
                         ELSE LET x == Build(s, i + 1, TRUE) IN IF x = <<>> THEN <<>> ELSE <<Id("aa"), LP>> \o x \o <<RP>>
             ELSE LET x == Build(s, i + 1, FALSE) IN IF x = <<>> THEN <<>> ELSE <<Id("bb"), LP>> \o x \o <<RP>>
 Shapes == UNION {[1..n -> {"p", "n", "q", "c"}] : n \in 0..MaxLen}
-Init == shape \in {s \in Shapes : Build(s, 1, FALSE) # <<>>} /\ d \in 0..MaxD
-Next == FALSE /\ UNCHANGED <<shape, d>>
-Spec == Init /\ [][Next]_<<shape, d>>
+HasParen(s) == \E i \in 1..Len(s) : s[i] = "p"
+Init == /\ side \in {"plain", "right"}
+        /\ shape \in {s \in Shapes : Build(s, 1, FALSE) # <<>> /\ (side = "right" => HasParen(s))}
+        /\ d \in 0..MaxD
+Next == FALSE /\ UNCHANGED <<shape, d, side>>
+Spec == Init /\ [][Next]_<<shape, d, side>>
 Toks == Build(shape, 1, FALSE)
 CounterIsNesting ==
   LET r == ParseFilter(Toks, Sch, d)
